@@ -103,6 +103,13 @@ def check(op, args, res, consts=None):
         return None if r[0] == pow(a[0], 2 ** a[1], P) else "exp_power_of_2"
     if op == "mulu32":
         return None if r == [a[0] % P, (a[0] * a[1]) % P] else "multiply by a u32 constant / multiply_accumulate with zeros"
+    if op == "ext2batchinv":
+        if len(r) != len(a): return "length %d, expected %d" % (len(r), len(a))
+        for i in range(0, len(a), 2):
+            x = [a[i] % P, a[i + 1] % P]
+            if ext_mul(2, x, r[i:i + 2], w[2]) != [1, 0]:
+                return "x * batch_inverse(x) != 1 for element %d of %d" % (i // 2, len(a) // 2)
+        return None
     if op in ("ext2inv", "ext4inv", "ext5inv"):
         D = int(op[3])
         x = [v % P for v in a]
